@@ -12,7 +12,7 @@ use std::collections::BTreeMap;
 pub static DEF: PropDef = PropDef {
     id: "C15",
     level: "exploration",
-    rule: "sequences of data-model versions from an edit generator (valid: add namespace, entity, one or several fields at once, default, nullable<->not nullable with default, deprecate, add/remove index, toggle full text; invalid: remove / reorder / retype an item, non-nullable new field without default, nullable to not nullable without default, duplicate field, reserved name; and versions valid for one entity and invalid for another) applied at run time on one instance and at start-up (restart chain) on another, both holding one row per entity per version. Oracle: the verdict is the library's own (the model text it reports); accepted: every earlier row reads the same under the same names, new fields read null or their default, storage identifiers of entities and fields never change and never collide, both instances agree on them; refused: reported model, stored model, index list and a fixed query battery identical before/after; restart with the same text succeeds and changes nothing. non-trivial = sequence with an accepted version adding at least two items and a refused version; distinct = canonical edit sequence",
+    rule: "sequences of data-model versions from an edit generator (valid: add namespace, entity, one or several fields at once, default, nullable<->not nullable with default, deprecate, add/remove index, toggle full text; invalid: remove / reorder / retype an item, non-nullable new field without default, nullable to not nullable without default, duplicate field, reserved name; and versions valid for one entity and invalid for another) applied at run time on one instance and at start-up (restart chain) on another, both holding one row per entity per version. Oracle: the verdict is the library's own (the model text it reports); accepted: every earlier row reads the same under the same names, new fields read null or their default, storage identifiers of entities and fields never change and never collide, both instances agree on them; refused: reported model, stored model, index list and a fixed query battery identical before/after; restart with the same text succeeds and changes nothing. non-trivial = sequence with an accepted version adding at least two items and a refused version; distinct = canonical edit sequence One case in four starts with an entity of 58-67 fields and grows it by up to 5 fields per version (identifiers cross 99/100); rows are read 40 fields at a time.",
     assumptions: &[
         "the instance does not report a refused run-time update (update_data_model returns the current model): a version counts as refused when the reported model text is not the submitted text",
     ],
